@@ -140,6 +140,11 @@ pub fn run(ctx: &Ctx) -> Outcome {
                             steps: vec![(0, a.clone()), (1, b.clone()), (2, c.clone())],
                         });
                         n_triples += 1;
+                        // the harness builds the replacement file for the base layout of fragment 0,
+                        // so data replacement is only issued from handles at the base version
+                        if matches!(c, Op::DataRepl { .. }) {
+                            continue;
+                        }
                         // forked profile: handle 1 reads the version committed by a, handle 0 stays at the base
                         hists.push(Hist {
                             cfg: cfg.clone(),
